@@ -4,6 +4,7 @@ import (
 	"encoding/json"
 
 	rbundle "github.com/styrainc/regal/bundle"
+	"github.com/styrainc/regal/internal/capabilities"
 	"github.com/styrainc/regal/pkg/config"
 )
 
@@ -59,4 +60,44 @@ func splitKey(k string) (string, string) {
 		}
 	}
 	return k, ""
+}
+
+func init() {
+	register("c19.versions", func(req map[string]any) (any, error) {
+		return embeddedOPAVersions()
+	})
+	// (from default) minus/plus through the real config unmarshalling; report presence of the probed built-ins
+	register("c19.resolve", func(req map[string]any) (any, error) {
+		caps := map[string]any{}
+		minus := []map[string]any{}
+		for _, n := range strs(req, "minus") {
+			minus = append(minus, map[string]any{"name": n})
+		}
+		plus := []map[string]any{}
+		for _, n := range strs(req, "plus") {
+			plus = append(plus, map[string]any{"name": n, "type": "function",
+				"decl": map[string]any{"args": []any{map[string]any{"type": "string"}}}, "result": map[string]any{"type": "boolean"}})
+		}
+		caps["minus"] = map[string]any{"builtins": minus}
+		caps["plus"] = map[string]any{"builtins": plus}
+		raw, _ := json.Marshal(map[string]any{"rules": map[string]any{}, "capabilities": caps})
+		uc, err := userConfig(raw)
+		if err != nil {
+			return map[string]any{"error": err.Error()}, nil
+		}
+		out := map[string]bool{}
+		for _, n := range strs(req, "probe") {
+			_, ok := uc.Capabilities.Builtins[n]
+			out[n] = ok
+		}
+		return out, nil
+	})
+}
+
+func embeddedOPAVersions() (any, error) {
+	m, err := capabilities.List()
+	if err != nil {
+		return nil, err
+	}
+	return m["opa"], nil
 }
